@@ -18,7 +18,8 @@ from vlib import corpus, observe, runner, taps
 
 ID = "C05"
 LEVEL = "exploration"
-RULE = ("script = 1-5 statements drawn from the calibrated single-statement pool of one dialect (corpus + literals containing ; -- /*) "
+RULE = ("script = 1-5 statements drawn from the calibrated single-statement pool of one dialect (corpus + literals containing ; -- /* + generator "
+        "statements that share tables: a stride through the C01 skeleton product, every C03 statement kind incl. DROP / RENAME) "
         "x separator variant x inter-statement noise x in-statement comment insertion x leading/trailing noise x final-semicolon choice; "
         "tsql no-semicolon mode: newline-only separation. Non-trivial = >= 2 statements and >= 1 noise element containing a semicolon; "
         "distinct = distinct script text.")
@@ -56,6 +57,23 @@ def _calib_worker(payload):
     return out
 
 
+def generated_statements():
+    """generator statements that SHARE tables, so that scripts built from them have intermediates, re-writes, drops and renames to combine:
+    a stride through the C01 skeleton product and every abstract statement kind of C03 (reads x write over {a,b,c}, DROP, RENAME) rendered
+    to SQL"""
+    from vlib import sqlir as ir
+    from vlib.props import C01, C03
+
+    out = []
+    for i, (stmt, feats) in enumerate(C01.skeletons((0, 1))):
+        if i % 97 == 5 and not isinstance(stmt, ir.Noop):
+            out.append((ir.r_stmt(stmt), "ansi"))
+    for k, kind in enumerate(C03.KINDS):
+        for d in ("ansi", "mysql"):
+            out.append((C03.render_stmt(kind, k, d), d))
+    return out
+
+
 def pools():
     if "pools" not in _state:
         cands = {}
@@ -68,6 +86,8 @@ def pools():
             cands.setdefault(e["dialect"], []).append(sql)
         for s in LITERAL_POOL:
             cands.setdefault("ansi", []).append(s)
+        for s, d in generated_statements():
+            cands.setdefault(d, []).append(s)
         for d in cands:
             cands[d] = sorted(set(cands[d]))
         items = [(s, d) for d in sorted(cands) for s in cands[d]]
